@@ -15,7 +15,7 @@ CONSTANTS
   ReadSizes = {0, 1}
   MaxMsgs = 2
   MaxWrites = 2
-  MaxReads = 2
+  MaxReads = 1
   MaxLen = 2
   PairFirst = {0, 1, 2}
   TypedFlush = {FALSE}
